@@ -30,7 +30,7 @@ CLAIMED = {
          'Theorems C07_* (coq/props/C07.v): each engine model returns exactly the ordered pairs of distinct input positions with equal length and <= k mismatches, d = number of mismatches; unequal lengths never. Positions are positions of the input list (kdtree buckets are mapped back).',
          COMMON_NOTE + 'rapidfuzz Hamming.distance; scipy KDTree contract; the bucket-to-input position mapping of kdtree is in the executable model and tied by correspondence.', 'DESIGN.md section 4 C07'),
  'C10': ('Coq proof that the COO/dense form of a pair-unique triplet list holds d at [r][q] and 0 elsewhere (combined with the uniqueness theorems), argument-check decision table proved equal to the validator regenerated from nn._check_common_input; differential runs over engines x containers x formats and the invalid-argument product',
-         'Theorems C10_* (coq/props/C10.v): dense form exact when no pair repeats (duplicates would be summed - shown), shape, the default engine\'s matrix entry formula, every invalid class rejected by the check model.',
+         'Theorems C10_* (coq/props/C10.v): dense form exact when no pair repeats (duplicates would be summed - shown), shape, the default engine\'s matrix entry formula, every invalid class rejected by the check model; source ties coq/props/C10g.v (validator as written = decision table) and coq/props/C10h.v (the matrix construction of _make_output as written, made dense, = the model matrix: C10_source_matrix).',
          COMMON_NOTE + 'scipy coo_matrix.toarray sums duplicates; container independence is definitional in the model and carried by correspondence (lists, tuples, arrays, Series with 4 index kinds).', 'DESIGN.md section 4 C10'),
  'C11': ('Coq proof: any chunk size >= 1 and any completion order of a modelled Pool.map give the serial result; chunk-size expression regenerated from nn.py proved >= 1; compression independence from the pre-filter theorem; top-m contract of stable sort + firstn; differential runs with real Pool workers',
          'Theorems C11_* (coq/props/C11.v). any chunk size >= 1 and any completion order give the serial result, the regenerated chunk-size expression is >= 1, compression independence from the pre-filter theorem, top-m contract, and the regenerated float64 radius admits every on-radius pair (C04_radius re-checked here). The scheduler part is partial: the theorem covers every schedule of the modelled pool; that CPython Pool.map meets the contract and fork inheritance are runtime behaviour exercised (not proved) with real processes.',
